@@ -231,6 +231,46 @@ def selftest(gen, ns, log, config='default'):
     return total, problems
 
 
+def native_fallback(prop, tier, spec, res, quiet, cfg):
+    """Where the translator met a construct it does not know (or could not translate the tree at all), the solver path is
+    undecided; the case space of the self-test is then run on the real crate and judged natively.  This can only *find* a
+    violation (reported like any other natively reproduced counterexample); it never turns "undecided" into "held"."""
+    if not (any('UNSUPPORTED' in u or 'translation failed' in u or 'mir2c failed' in u for u in res['undecided']) and not quiet and not res['violations']):
+        return
+    modes = set(f for (_, f, _) in spec['jobs'][tier])
+    kinds = '' if 0 in modes or (1 in modes and 2 in modes) else ('0,1' if 1 in modes else ('0,2,3,4,5' if 2 in modes else '0'))
+    scens = set(sc for (sc, _, _) in spec['jobs'][tier])
+    ops = set(NATIVE_OP.get(sc) for sc in scens)
+    bins, err = replayer(cfg)
+    if bins:
+        for n in ([0, 1, 2, 3] if tier == 'quick' else [0, 1, 2, 3, 4]):
+            rc, out, _ = sh([bins['dev'], 'e2-judge', str(n)] + ([kinds] if kinds else []), timeout=900)
+            hit = None
+            for l in out.split('\n'):
+                m = re.match(r'^E2JUDGE (.*?) :: (.*)$', l)
+                if m:
+                    kv = dict(x.split('=') for x in m.group(1).split())
+                    if kv['op'] in ops:
+                        hit = (kv, m.group(2))
+                        break
+            if hit:
+                kv, why = hit
+                scen = [k for k, v in NATIVE_OP.items() if v == kv['op'] and k in scens][0]
+                cex = {k: int(kv[k]) for k in ('start', 'size', 'a', 'b', 'start2', 'size2', 'kind', 'at')}
+                nat, _e = native_replay(scen, int(kv['N']), int(kv['M']), cex, cfg)
+                if nat and any(rc2 == 1 for rc2, _ in nat.values()):
+                    rdir = os.path.join(os.environ.get('VERIF_REPLAY_DIR') or os.path.join(VERIF, 'replays'), prop)
+                    os.makedirs(rdir, exist_ok=True)
+                    path = os.path.join(rdir, 'e2_native_%s_n%s.json' % (scen.lower(), kv['N']))
+                    json.dump(dict(engine='E2', property=prop, scenario=scen, n=int(kv['N']), m=int(kv['M']), check=why, cex=cex, native=nat,
+                                   found_by='native judgement of the self-test case space (solver path undecided: unknown construct in the translation)'),
+                              open(path, 'w'), indent=1)
+                    res['violations'].append(dict(path=path, harness='E2/native %s N=%s' % (scen, kv['N']), check=why,
+                                                  role='%s/%s' % (kv['op'], {1: 'drop-panic', 2: 'clone-panic', 3: 'closure-panic', 4: 'iterator-panic', 5: 'eq-panic', 0: 'no-fault'}.get(cex['kind'], 'fault'))))
+                    res['notes'].append('solver path undecided (%s); the violation was found by running the self-test case space on the real crate' % res['undecided'][0][:120])
+                    break
+
+
 def run(prop, tier, spec, log, baseline=None, quiet=False):
     """spec: dict(tag, features, jobs=[(scen, faults, [N..] or [(N,M)..])], unwind)"""
     t0 = time.time()
@@ -240,6 +280,7 @@ def run(prop, tier, spec, log, baseline=None, quiet=False):
     part['translation'] = {k: v for k, v in info.items() if k != 'functions'}
     if gen is None:
         res['undecided'].append('E2: ' + info.get('error', 'translation failed'))
+        native_fallback(prop, tier, spec, res, quiet, 'unstable' if 'unstable' in spec.get('features', []) else 'default')
         return res
     part['functions_translated'] = info['functions']
     cfg = 'unstable' if 'unstable' in spec.get('features', []) else 'default'
@@ -373,42 +414,7 @@ def run(prop, tier, spec, log, baseline=None, quiet=False):
             continue
         if 'FAILURE' not in sts:
             res['broken'].append('E2 vacuity: witness "%s" of %s (faults=%d) is unreachable at every capacity' % (msg, scen, faults))
-    # fallback: where the translator met a construct it does not know, the solver path is undecided; the case space
-    # of the self-test is then run on the real crate and judged natively.  This can only *find* a violation (which is
-    # reported like any other natively reproduced counterexample); it never turns "undecided" into "held".
-    if any('UNSUPPORTED' in u or 'translation failed' in u or 'mir2c failed' in u for u in res['undecided']) and not quiet and not res['violations']:
-        modes = set(f for (_, f, _) in spec['jobs'][tier])
-        kinds = '' if 0 in modes or (1 in modes and 2 in modes) else ('0,1' if 1 in modes else ('0,2,3,4,5' if 2 in modes else '0'))
-        scens = set(sc for (sc, _, _) in spec['jobs'][tier])
-        ops = set(NATIVE_OP.get(sc) for sc in scens)
-        bins, err = replayer(cfg)
-        if bins:
-            for n in ([0, 1, 2, 3] if tier == 'quick' else [0, 1, 2, 3, 4]):
-                rc, out, _ = sh([bins['dev'], 'e2-judge', str(n)] + ([kinds] if kinds else []), timeout=900)
-                hit = None
-                for l in out.split('\n'):
-                    m = re.match(r'^E2JUDGE (.*?) :: (.*)$', l)
-                    if m:
-                        kv = dict(x.split('=') for x in m.group(1).split())
-                        if kv['op'] in ops:
-                            hit = (kv, m.group(2))
-                            break
-                if hit:
-                    kv, why = hit
-                    scen = [k for k, v in NATIVE_OP.items() if v == kv['op'] and k in scens][0]
-                    cex = {k: int(kv[k]) for k in ('start', 'size', 'a', 'b', 'start2', 'size2', 'kind', 'at')}
-                    nat, _e = native_replay(scen, int(kv['N']), int(kv['M']), cex, cfg)
-                    if nat and any(rc2 == 1 for rc2, _ in nat.values()):
-                        rdir = os.path.join(os.environ.get('VERIF_REPLAY_DIR') or os.path.join(VERIF, 'replays'), prop)
-                        os.makedirs(rdir, exist_ok=True)
-                        path = os.path.join(rdir, 'e2_native_%s_n%s.json' % (scen.lower(), kv['N']))
-                        json.dump(dict(engine='E2', property=prop, scenario=scen, n=int(kv['N']), m=int(kv['M']), check=why, cex=cex, native=nat,
-                                       found_by='native judgement of the self-test case space (solver path undecided: unknown construct in the translation)'),
-                                  open(path, 'w'), indent=1)
-                        res['violations'].append(dict(path=path, harness='E2/native %s N=%s' % (scen, kv['N']), check=why,
-                                                      role='%s/%s' % (kv['op'], {1: 'drop-panic', 2: 'clone-panic', 3: 'closure-panic', 4: 'iterator-panic', 5: 'eq-panic', 0: 'no-fault'}.get(cex['kind'], 'fault'))))
-                        res['notes'].append('solver path undecided (%s); the violation was found by running the self-test case space on the real crate' % res['undecided'][0][:120])
-                        break
+    native_fallback(prop, tier, spec, res, quiet, cfg)
     part['witnesses'] = {'%s faults=%d: %s' % k: '%d of %d capacities reach it' % (v.count('FAILURE'), len(v)) for k, v in sorted(wit.items())}
     part['wall_s'] = round(time.time() - t0, 1)
     return res
